@@ -188,3 +188,42 @@ func TourJustificationPatterns(rt *rapid.T) *ChainCase {
 	}
 	return cc
 }
+
+// TourWithdrawnSyncMembers: a Capella/Deneb chain with fewer validators than sync-committee seats (every
+// validator holds several seats) and a long sync-committee period, in which validators exit early, become
+// fully withdrawable after one epoch and are swept to a balance of zero while they still sit in the current
+// committee; every block carries a partially participating sync aggregate. This is where the order of the
+// per-seat rewards and (saturating) penalties of process_sync_aggregate is observable, and where proposer
+// and participant rewards meet balances near zero.
+func TourWithdrawnSyncMembers(rt *rapid.T, muts []string) *ChainCase {
+	fork := rapid.SampledFrom([][4]uint64{{1, 1, 1, far}, {1, 1, 1, 3}, {1, 1, 1, 1}}).Draw(rt, "forks")
+	n := rapid.IntRange(6, 12).Draw(rt, "n")
+	o := TourBaseOverride(map[string]uint64{
+		"SYNC_COMMITTEE_SIZE":                  rapid.SampledFrom([]uint64{16, 32}).Draw(rt, "sync_size"),
+		"EPOCHS_PER_SYNC_COMMITTEE_PERIOD":     rapid.SampledFrom([]uint64{8, 16}).Draw(rt, "sync_period"),
+		"MAX_WITHDRAWALS_PER_PAYLOAD":          16,
+		"MAX_VALIDATORS_PER_WITHDRAWALS_SWEEP": 32,
+		"MIN_PER_EPOCH_CHURN_LIMIT":            rapid.SampledFrom([]uint64{2, 4}).Draw(rt, "churn"),
+	})
+	cc := &ChainCase{Profile: "full", Config: ConfigCase{Family: "custom", ForkEpochs: fork, Override: o}}
+	cc.Genesis = GenesisCase{N: n, GenesisTime: 1000, Eth1Seed: rapid.Uint64().Draw(rt, "eth1_seed")}
+	for i := 0; i < n; i++ {
+		cc.Genesis.AmountClass = append(cc.Genesis.AmountClass, 0)
+		cc.Genesis.Eth1Cred = append(cc.Genesis.Eth1Cred, true)
+	}
+	slots := rapid.IntRange(28, 40).Draw(rt, "slots")
+	for s := 1; s <= slots; s++ {
+		p := tourBlock(rt, 1000)
+		p.SyncPm = rapid.SampledFrom([]int{300, 500, 500, 700, 900}).Draw(rt, "sync_pm")
+		if s >= 5 && s <= 12 {
+			p.NExits = rapid.SampledFrom([]int{0, 1, 1, 2}).Draw(rt, "n_exits")
+		}
+		a := Action{Kind: "block", Slots: 1, Plan: p}
+		if len(muts) > 0 {
+			a.Mut = muts
+			a.MutSeed = rapid.Uint64().Draw(rt, "mut_seed")
+		}
+		cc.Actions = append(cc.Actions, a)
+	}
+	return cc
+}
